@@ -18,6 +18,9 @@ import PgProofs.GenoNumbers
 import PgProofs.GenoAlign
 import PgProofs.GenoDict
 import PgProofs.GenoDict2
+import PgProofs.GenoDictB
+import PgProofs.GenoLookup
+import PgGen.C12Tables
 import PgModel.Geno.Valid
 namespace Pg.Geno
 
@@ -25,9 +28,16 @@ namespace Pg.Geno
 theorem C12_nested_roundtrip (d : DNA) (h : viewNorm d = true) : parse (toNested d) = some d :=
   parse_toNested d h
 
-/-- `DNA.parse(value of d.to_json(compact=True)) == d`. -/
-theorem C12_compact_roundtrip (d : DNA) (h : viewNorm d = true) : parse (toCompact d) = some d :=
-  parse_toCompact d h
+/-- `DNA.parse(value of d.to_json(compact=True)) == d`, for the compact form exactly as the code
+recurses (`toCompactDeep`: a childless node is its bare value at every depth). -/
+theorem C12_compact_roundtrip (d : DNA) (h : viewNorm d = true) : parse (toCompactDeep d) = some d :=
+  parse_toCompactDeep d h
+
+/-- `from_json(d.to_json(compact=False)) == d`: the verbose JSON form (value and children of the
+root, every child in its compact form) is parsed back by parsing the children and normalising
+`DNA(value, children)`. -/
+theorem C12_verbose_roundtrip (d : DNA) (h : viewNorm d = true) : parseVerbose (toVerbose d) = some d :=
+  parseVerbose_toVerbose d h
 
 /-- The flat-number view reconstructs, together with the spec, the DNA it was exported from:
 `DNA.from_numbers(d.to_numbers(), spec) == d` for every valid `d` of every spec without custom
@@ -99,6 +109,103 @@ theorem C12_dict_default_roundtrip (g : Spec) (hc : g.noCustom = true) (d : DNA)
     g.fromDict false (toDict {} b) = some d :=
   fromDict_toDict_default g hc d b hv hb hkeys
 
+/-- TO_DICT, EVERY OPTION TRIPLE (`key_type` × `value_type` × `multi_choice_key`): the entry under
+any key is the list of the decisions `_dump_node` puts under it, in depth-first order — a single
+value if there is one, a list if there are several, absent if there is none. -/
+theorem C12_to_dict_lookup (o : Opts) (b : BDNA) (k : String) :
+    dictGet (toDict o b) k = toDE (collectVals k (puts o b)) :=
+  dictGet_toDict o b k
+
+/-- FROM_DICT WITH THE DICTIONARY THREADED THROUGH: `_get_decision` pops the lists it finds under a
+NAME, so the dictionary changes while it is read.  `Reads o useInts b D D'`: reading the decisions
+of the bound tree `b` off `D` in depth-first order finds, at every node, the decision of that node
+(by id; else by name, popping; else in the parent's list) and ends with `D'`.  Then `from_dict`
+rebuilds the DNA.  (`C12_from_dict` is the special case where nothing is popped.) -/
+theorem C12_from_dict_popping (g : Spec) (hc : g.noCustom = true) (d : DNA) (b : BDNA) (o : Opts)
+    (useInts : Bool) (D D' : List (String × DE)) (hv : Valid g d) (hb : g.annot d = some b)
+    (hD : Reads o useInts b D D') :
+    g.fromDict useInts D = some d :=
+  fromDict_of_reads o useInts g hc d b D D' hv hb hD
+
+/-- END TO END, EVERY OPTION TRIPLE (the 29 non-default ones and the default):
+`DNA.from_dict(d.to_dict(key_type, value_type, multi_choice_key), spec, use_ints_as_literals) == d`
+for every valid `d` of every spec without custom points, under the decidable condition
+`dictCond o useInts b` on the keys (`PgModel/Geno/DictCond.lean`, evaluated by the driver on every
+run and compared with the code): a decision stored under its name has an id that is no key; a
+decision stored under its id is alone under that key; a sub-choice stored in its parent's list
+finds neither its id nor its name as a key and the parent's list holds exactly the decisions of
+that multi-choice; the value style is readable; with `value_type='dna'` nothing below a choice
+sits under a popped name.  Names that accumulate several decisions (the sub-choices of a named
+multi-choice; a named decision point reached through several sub-choices) are INSIDE the theorem:
+their list is popped in the order it was written. -/
+theorem C12_dict_roundtrip (o : Opts) (useInts : Bool) (g : Spec) (hc : g.noCustom = true) (d : DNA) (b : BDNA)
+    (hv : Valid g d) (hb : g.annot d = some b) (hcond : dictCond o useInts b = true) :
+    g.fromDict useInts (toDict o b) = some d :=
+  fromDict_toDict_B o useInts g hc d b hv hb hcond
+
+/-- The same with the conditions as propositions and ANY choice `rn` of the names considered popped. -/
+theorem C12_dict_roundtrip_cond (o : Opts) (useInts : Bool) (rn : List String) (g : Spec) (hc : g.noCustom = true)
+    (d : DNA) (b : BDNA) (hv : Valid g d) (hb : g.annot d = some b) (hcond : Cond o useInts (puts o b) rn b) :
+    g.fromDict useInts (toDict o b) = some d :=
+  fromDict_toDict o useInts rn g hc d b hv hb hcond
+
+/-! ### the look-up structures and their caches -/
+
+/-- THE CACHE DISCIPLINE: whatever sequence of construction (`__init__`), rebinding (`_on_bound`
+fires after every change of value / children / metadata — every mutator and recombinator goes
+through it), cloning (`_sym_clone`) and looking up produced a DNA object, a filled
+`_decision_by_id_cache` / `_named_decisions` holds the tables of its CURRENT tree. -/
+theorem C12_lookup_caches_coherent (o : Obj) (h : Produced o) : o.Coherent :=
+  produced_coherent h
+
+/-- LOOK-UPS EQUAL THOSE OF THE REBUILT DNA: on every produced object with a valid tree,
+`_decision_by_id` and `named_decisions` (hence `dna[dp]`, `dna[id]`, `dna[name]`, which are
+functions of the two — `getItem`, `getItemDp`) are the ones of `DNA.from_numbers(d.to_numbers(), spec)`. -/
+theorem C12_lookups_of_rebuilt (o : Obj) (h : Produced o) (hc : o.spec.noCustom = true)
+    (hv : Valid o.spec o.tree) :
+    ∃ d', o.spec.fromNumbers (flat o.tree) = some d' ∧
+      o.readById.1 = (Obj.init o.spec d').readById.1 ∧
+      o.readNamed.1 = (Obj.init o.spec d').readNamed.1 :=
+  lookups_eq_rebuilt h hc hv
+
+/-- The discipline matters: a copy that keeps the caches of the original and is then given another
+tree (what `_sym_clone` must not do) answers look-ups with the OLD tree. -/
+theorem C12_clone_keeping_caches_incoherent :
+    let g := Spec.point (.choices 1 [[], []] true false { loc := [.s "a"] })
+    let o := (Obj.init g (.mk (.int 0) [])).readById.2
+    ¬ (o.cloneKeepingCaches (.mk (.int 1) [])).Coherent := by
+  intro g o h
+  have := h.1 _ rfl
+  revert this
+  decide
+
+/-- TRANSLATOR OBLIGATION (T-CACHE): the only writes to the two caches in pyglove/core/geno are the
+resets in `__init__` and `_on_bound` and the guarded fills of the two lazy properties (with these
+`to_dict` arguments); `_sym_clone` creates the copy through the constructor and writes no cache. -/
+theorem C12_shape_cache_writes :
+    Pg.C12Gen.cacheWrites =
+      [("DNA.__init__", "self._decision_by_id_cache", "", "None"),
+       ("DNA.__init__", "self._named_decisions", "", "None"),
+       ("DNA._on_bound", "self._decision_by_id_cache", "", "None"),
+       ("DNA._on_bound", "self._named_decisions", "", "None"),
+       ("DNA._decision_by_id", "self._decision_by_id_cache", "self._decision_by_id_cache is None",
+        "self.to_dict(key_type='id', value_type='dna', include_inactive_decisions=True, multi_choice_key='both')"),
+       ("DNA.named_decisions", "self._named_decisions", "self._named_decisions is None", "named_decisions")] ∧
+    Pg.C12Gen.cloneCreates = "other = super()._sym_clone(deep, memo)" ∧
+    Pg.C12Gen.otherFiles = [] := by
+  refine ⟨by rfl, by rfl, by rfl⟩
+
+/-- TRANSLATOR OBLIGATION: the accumulation loop of `named_decisions` and the dispatch of
+`__getitem__` are the ones `namedDecisions` / `getItem` were written from. -/
+theorem C12_shape_lookups :
+    Pg.C12Gen.namedLoop =
+      ["for (spec, dna) in self.to_dict(key_type='dna_spec', value_type='dna', multi_choice_key='parent', include_inactive_decisions=True).items()",
+       "if spec.name is not None: ; v = named_decisions.get(spec.name, None) ; if v is None: ; v = dna ; else: ; if not isinstance(dna, list): ; dna = [dna] ; if isinstance(v, list): ; v.extend(dna) ; else: ; v = [v] + dna ; named_decisions[spec.name] = v"] ∧
+    Pg.C12Gen.getItemStmts =
+      ["if isinstance(key, (int, slice)): ; return self.children[key]",
+       "if isinstance(key, DNASpec): ; key = key.id ; return self._decision_by_id[key] ; else: ; v = self.named_decisions.get(key, None) ; if v is None: ; v = self._decision_by_id[key] ; return v"] := by
+  refine ⟨by rfl, by rfl⟩
+
 /-- Dropping the condition: two decision points at the same location share one key, `to_dict()`
 turns their decisions into a list, and `from_dict` cannot read it back (replayed on the code:
 `space([oneof(.., location='a'), oneof(.., location='a')])`, `DNA([0, 1]).to_dict() == {'a': [0, 1]}`). -/
@@ -159,6 +266,29 @@ example : (match (Spec.point (.choices 1 [[], [.choices 1 [[], []] true false { 
     | none => false) = true := by decide
 example : (match exampleSpec12.annot exampleDna12 with
     | some b => decide (((puts0 b).map (·.1)).Nodup)
+    | none => false) = true := by decide
+/-- A named multi-choice whose candidate holds a named choice: under `name_or_id` keys both names
+accumulate two decisions. -/
+def exampleSpecNames : Spec :=
+  .point (.choices 2 [[.choices 1 [[], []] true false { name := some "y", loc := [.s "q"] }], []] false false
+    { name := some "m", loc := [.s "a"] })
+
+def exampleDnaNames : DNA := .mk .none [.mk (.int 0) [.mk (.int 1) []], .mk (.int 0) [.mk (.int 0) []]]
+
+def exampleGrid : List Opts :=
+  [0, 1].flatMap fun kt => [0, 1, 2, 3, 4].flatMap fun vt => [0, 1, 2].map fun mk =>
+    { keyType := kt, valueType := vt, multi := mk }
+
+example : Valid exampleSpecNames exampleDnaNames := by decide
+/-- The lists that `from_dict` pops really occur … -/
+example : (match exampleSpecNames.annot exampleDnaNames with
+    | some b => decide (dictGet (toDict { keyType := 1, multi := 1 } b) "y" =
+        some (.many [.val (.int 1), .val (.int 0)]) ∧
+        dictGet (toDict { keyType := 1, multi := 1 } b) "m" = some (.many [.val (.int 0), .val (.int 0)]))
+    | none => false) = true := by decide
+/-- … and the condition of `C12_dict_roundtrip` holds for ALL 30 option triples on this DNA. -/
+example : (match exampleSpecNames.annot exampleDnaNames with
+    | some b => exampleGrid.all fun o => dictCond o (o.valueType == 3) b
     | none => false) = true := by decide
 /-- `Good` is satisfiable: the default dictionary view of the example DNA holds its decisions. -/
 example : (match exampleSpec12.annot exampleDna12 with
